@@ -218,5 +218,5 @@ func Roles() Spec {
 		ctx := PreparedSeed("prepared").Build(c)
 		return mustRun(c, ctx, rot...)
 	}}
-	return Spec{Name: "roles", Seeds: []explore.Seed{plain, rotated}, Events: evs, DepthQuick: 2, DepthThor: 3, ExpectFail: exp, MinStates: 50}
+	return Spec{Name: "roles", Seeds: []explore.Seed{plain, rotated}, Events: evs, DepthQuick: 3, DepthThor: 4, ExpectFail: exp, MinStates: 50}
 }
